@@ -42,6 +42,24 @@ def run(ctx):
                'LogicNet constructors modelled as records; Const(int) through the _convert_int contract')
     combfam.run_comb_family(ctx, 'C06.operators', cases(ctx.tier), FUNCS,
                             'operator result differs from the exact integer result', opts=dict(const_twins=4))
+    # negative Python ints as operands: treated like Const(k)
+    from vlib.guard import guarded
+    from fam import cases_ops
+    n = 0
+    for wa in (1, 3, 8):
+        for k in (-1, -3, -4, -128):
+            n += 1
+            r = guarded(lambda: cases_ops.negative_int_operands(wa=wa, k=k))
+            if r.get('crashed'):
+                ctx.crashes.append('C06.negative_int_operands: ' + r['observed'][-300:])
+            elif r['failed']:
+                ctx.confirm_and_report('C06.negative_int_operands[wa=%d,k=%d]' % (wa, k), 'call',
+                                       dict(module='fam.cases_ops', func='negative_int_operands', kwargs=dict(wa=wa, k=k)),
+                                       canonical_input=dict(wa=wa, k=k), function=FUNCS,
+                                       text='a negative int operand is not treated like the equivalent Const')
+    ctx.family('C06.negative_int_operands', 'B', instances=n, evaluations=n * 14, nontrivial=n,
+               bound='widths 1,3,8 x k in -1,-3,-4,-128 x 14 operator / helper forms: accepted iff Const(k) is',
+               sample=dict(wa=3, k=-3))
     ctx.assume('z3 soundness; spec/netsem.py; spec functions in fam/cases_ops.py state the documented result')
     return ctx.finish('other', './check C06', ['z3', 'pyvc', 'spec/netsem.py', 'elab/n2smt.py'],
                       'P: (len, den) contracts of _two_var_op, __invert__, __getitem__, _extend_with_bit, concat, select, '
